@@ -73,8 +73,10 @@ def run(ctx):
     else:
         configs = [(2, 4000), (8, 3000), (16, 1500)] * (1 if tier == "quick" else 20)
 
+        configs += [("race", 12000)] * (2 if tier == "quick" else 20)
+
         def one(cfg):
-            rc2, o2, e2 = vlib.run([os.path.join(sd, "stress"), str(cfg[0]), str(cfg[1])], timeout=300)
+            rc2, o2, e2 = vlib.run([os.path.join(sd, "stress"), str(cfg[0]), str(cfg[1])], timeout=600)
             return {"threads": cfg[0], "iters": cfg[1], "rc": rc2, "line": o2.strip(), "err": e2[-200:]}
         with ThreadPoolExecutor(max_workers=4) as ex:
             runs = list(ex.map(one, configs))
@@ -85,7 +87,7 @@ def run(ctx):
     res["coverage"] = {
         "evaluations": arms_total + len(runs), "distinct_nontrivial": arms_total,
         "rule": "every match arm of every Rust skeleton generated for %d random interfaces (structure facts), plus stress runs of one generated "
-                "object with 2/8/16 threads performing random clone / drop / invoke sequences; non-trivial = an arm with a method call" % n,
+                "object with 2/8/16 threads performing random clone / drop / invoke sequences and rounds of 2-4 threads releasing their last handles at the same instant; non-trivial = an arm with a method call" % n,
         "samples": [rr for rr in runs[:3]], "skeleton_arms_checked": arms_total, "stress_runs": len(runs), "stress_invocations": invocations,
         "conc_facts": ctx.get("conc_facts"),
     }
